@@ -34,6 +34,7 @@ type ShutLine struct {
 	H2      string            `json:"h2"`    // second handle usable after the first was closed
 	Count   int               `json:"count"` // registry count while both are open
 	Feeds   int               `json:"feeds"` // feed goroutines running afterwards
+	WGone   string            `json:"wgone"` // timer+writer: the writer's document (expiring in a second) was expired: gone | still | -
 }
 
 func probeHandle(b *rosmar.Bucket) string {
@@ -68,7 +69,7 @@ func cmdShut(args []string) error {
 	ctx := context.Background()
 	sort.Strings(sc.Procs)
 	line := ShutLine{K: "shut", Tr: *trNo, Scen: strings.Join(sc.Procs, "+"), Outcome: "ok", Stuck: []string{}, Res: map[string]string{},
-		Other: "-", Names: "-", H1: "-", H2: "-"}
+		Other: "-", Names: "-", H1: "-", H2: "-", WGone: "-"}
 	has := func(p string) bool {
 		for _, x := range sc.Procs {
 			if x == p {
@@ -239,6 +240,18 @@ func cmdShut(args []string) error {
 	if has("writer") {
 		// a timer armed by the writer after the store was shut down would fire now (and panic the process)
 		time.Sleep(2200 * time.Millisecond)
+	}
+	if has("writer") && has("timer") && len(sc.Procs) == 2 && line.Res["writer"] == "ok" {
+		// the bucket stays open: the deadline the writer introduced while the timer callback was running must be honoured
+		line.WGone = "still"
+		deadline := time.Now().Add(3 * time.Second)
+		for time.Now().Before(deadline) {
+			if _, _, err := c.GetRaw("w"); err != nil {
+				line.WGone = "gone"
+				break
+			}
+			time.Sleep(50 * time.Millisecond)
+		}
 	}
 	if opening {
 		// ... and so would a timer armed by an opener that lost the race for the registration
